@@ -457,7 +457,7 @@ def flush(sk, n):
             a = kernels.mk_tensor(["M", "K"], A, False)
             b = kernels.mk_tensor(["K"], B, False)
             z = Tensor(rank_ids=["M"], shape=[len(A)])
-            Metrics.beginCollect(os.path.join(d, "t"))
+            Metrics.beginCollect(os.path.join(d, "t" + mode))         # one file prefix per mode: nothing is read back from an earlier mode's files
             if mode in ("file", "both"):
                 Metrics.setNumCachedUses(n)
             for r, tys in TYPES.items():
@@ -484,7 +484,7 @@ def flush(sk, n):
                 got = {}
                 for r, tys in TYPES.items():
                     for ty in tys:
-                        p = os.path.join(d, "t-%s-%s.csv" % (r, ty))
+                        p = os.path.join(d, "t%s-%s-%s.csv" % (mode, r, ty))
                         rows = []
                         if os.path.exists(p):
                             with open(p) as fh:
